@@ -22,12 +22,15 @@ From GV Require Import Base.Util Base.NMap Lang.Ast Circuit.Ssa Builder.Builder 
 From GV Require Lang.Sem.
 Local Open Scope N_scope.
 
+Section Generic.
+Context {Wt Cs Pst : Type}.
+
 (* ------------------------------------------------------------------ env.rs *)
 
-Definition scope := list (N * list W).      (* a BTreeMap: sorted by key, keys distinct *)
+Definition scope := list (N * list Wt).      (* a BTreeMap: sorted by key, keys distinct *)
 Definition cenv := list scope.              (* INNERMOST scope first (Rust: last) *)
 
-Fixpoint scope_insert (s : scope) (x : N) (v : list W) : scope :=
+Fixpoint scope_insert (s : scope) (x : N) (v : list Wt) : scope :=
   match s with
   | [] => [(x, v)]
   | (k, w) :: r =>
@@ -36,7 +39,7 @@ Fixpoint scope_insert (s : scope) (x : N) (v : list W) : scope :=
       else (k, w) :: scope_insert r x v
   end.
 
-Fixpoint scope_replace (s : scope) (x : N) (v : list W) : option scope :=
+Fixpoint scope_replace (s : scope) (x : N) (v : list Wt) : option scope :=
   match s with
   | [] => None
   | (k, w) :: r =>
@@ -44,21 +47,21 @@ Fixpoint scope_replace (s : scope) (x : N) (v : list W) : option scope :=
       else match scope_replace r x v with Some r' => Some ((k, w) :: r') | None => None end
   end.
 
-Fixpoint env_get (E : cenv) (x : N) : option (list W) :=
+Fixpoint env_get (E : cenv) (x : N) : option (list Wt) :=
   match E with
   | [] => None
   | s :: r => match assocN x s with Some v => Some v | None => env_get r x end
   end.
 
 (* let_in_current_scope: `self.0.last_mut().unwrap()` *)
-Definition env_let (E : cenv) (x : N) (v : list W) : res cenv :=
+Definition env_let (E : cenv) (x : N) (v : list Wt) : res cenv :=
   match E with
   | s :: r => Ok (scope_insert s x v :: r)
   | [] => Crash
   end.
 
 (* assign_mut: the innermost scope that has the name; panic! if none *)
-Fixpoint env_assign (E : cenv) (x : N) (v : list W) : res cenv :=
+Fixpoint env_assign (E : cenv) (x : N) (v : list Wt) : res cenv :=
   match E with
   | [] => Crash
   | s :: r =>
@@ -72,12 +75,47 @@ Definition env_push (E : cenv) : cenv := [] :: E.
 Definition env_pop (E : cenv) : res cenv :=
   match E with _ :: r => Ok r | [] => Crash end.
 
-(* ------------------------------------------------------------------ compiler state *)
+(* ------------------------------------------------------------------ the operation set
 
-(* the CircuitBuilder: gate store + its panic_gates *)
-Record cst := mkCst { cb : builder; cp : pstate }.
+   Everything below is generic in the type of wires [Wt], the compiler state [Cs] (Rust: the
+   CircuitBuilder) and the saved panic states [Pst] (Rust: CachedPanicResult), and uses the
+   gate store only through the record [ops].  Two instances:
+   - [bops] (end of this file): wires are builder wire numbers, the operations are the models of
+     CircuitBuilder's methods -- this instance IS the model of compile.rs and is the one tied
+     to the real compiler;
+   - [TSem.tops]: wires are Booleans, the operations are the Boolean functions the gadgets
+     compute -- the bit-level semantics of a program.
+   LowerSim.v proves once, for the generic code, that related operation sets give related
+   results. *)
 
-Definition M (A : Type) := cst -> res (A * cst).
+Record ops := mkOps {
+  w0 : Wt;                                   (* the constant-false wire *)
+  w1 : Wt;                                   (* the constant-true wire *)
+  o_xor : Wt -> Wt -> Cs -> res (Wt * Cs);
+  o_and : Wt -> Wt -> Cs -> res (Wt * Cs);
+  o_or : Wt -> Wt -> Cs -> res (Wt * Cs);
+  o_eq : Wt -> Wt -> Cs -> res (Wt * Cs);
+  o_not : Wt -> Cs -> res (Wt * Cs);
+  o_mux : Wt -> Wt -> Wt -> Cs -> res (Wt * Cs);
+  o_negation : list Wt -> Cs -> res (list Wt * Cs);
+  o_addition : list Wt -> list Wt -> Cs -> res ((list Wt * Wt * Wt) * Cs);
+  o_subtraction : list Wt -> list Wt -> bool -> Cs -> res ((list Wt * Wt) * Cs);
+  o_multiplier : Wt -> Wt -> Wt -> Wt -> Cs -> res ((Wt * Wt) * Cs);
+  o_udiv : list Wt -> list Wt -> Cs -> res ((list Wt * list Wt) * Cs);
+  o_sdiv : list Wt -> list Wt -> Cs -> res ((list Wt * list Wt) * Cs);
+  o_comparator : nat -> list Wt -> bool -> list Wt -> bool -> Cs -> res ((Wt * Wt) * Cs);
+  o_eq_circuit : list Wt -> list Wt -> Cs -> res (Wt * Cs);
+  o_merger : nat -> bool -> list (list Wt) -> Cs -> res (list (list Wt) * Cs);
+  o_sorter : nat -> list (list Wt) -> Cs -> res (list (list Wt) * Cs);
+  o_panic_if : Wt -> preason -> meta -> Cs -> res (unit * Cs);
+  o_peek : Cs -> res (Pst * Cs);
+  o_replace : Pst -> Cs -> res (Pst * Cs);
+  o_mux_panic : Wt -> Pst -> Pst -> Cs -> res (Pst * Cs)
+}.
+
+Variable OPS : ops.
+
+Definition M (A : Type) := Cs -> res (A * Cs).
 Definition ret {A} (a : A) : M A := fun s => Ok (a, s).
 Definition mbind {A C} (m : M A) (k : A -> M C) : M C :=
   fun s => match m s with
@@ -92,25 +130,18 @@ Definition nofuel {A} : M A := fun _ => OutOfFuel.
 Definition lift_res {A} (r : res A) : M A :=
   fun s => match r with Ok a => Ok (a, s) | Crash => Crash | OutOfFuel => OutOfFuel end.
 
-(* a request to the gate store *)
-Definition liftb {A} (f : builder -> res (A * builder)) : M A :=
-  fun s => let* (a, b') := f (cb s) in Ok (a, mkCst b' (cp s)).
-
-Definition m_xor (x y : W) : M W := liftb (fun b => push_xor_top b x y).
-Definition m_and (x y : W) : M W := liftb (fun b => push_and_top b x y).
-Definition m_or (x y : W) : M W := liftb (fun b => push_or b x y).
-Definition m_eq (x y : W) : M W := liftb (fun b => push_eq b x y).
-Definition m_not (x : W) : M W := liftb (fun b => push_not b x).
-Definition m_mux (s x0 x1 : W) : M W := liftb (fun b => push_mux b s x0 x1).
-
-Definition m_panic_if (cond : W) (r : preason) (m : meta) : M unit :=
-  fun s => let* (P', b') := push_panic_if (cb s) (cp s) cond r
-                              (mkPLoc (m_sl m) (m_sc m) (m_el m) (m_ec m)) in
-           Ok (tt, mkCst b' P').
-Definition m_peek : M pstate := fun s => Ok (cp s, s).
-Definition m_replace (P : pstate) : M pstate := fun s => Ok (cp s, mkCst (cb s) P).
-Definition m_mux_panic (c : W) (T F : pstate) : M pstate :=
-  fun s => let* (P, b') := mux_panic (cb s) c T F in Ok (P, mkCst b' (cp s)).
+Definition m_xor : Wt -> Wt -> M Wt := o_xor OPS.
+Definition m_and : Wt -> Wt -> M Wt := o_and OPS.
+Definition m_or : Wt -> Wt -> M Wt := o_or OPS.
+Definition m_eq : Wt -> Wt -> M Wt := o_eq OPS.
+Definition m_not : Wt -> M Wt := o_not OPS.
+Definition m_mux : Wt -> Wt -> Wt -> M Wt := o_mux OPS.
+Definition m_panic_if : Wt -> preason -> meta -> M unit := o_panic_if OPS.
+Definition m_peek : M Pst := o_peek OPS.
+Definition m_replace : Pst -> M Pst := o_replace OPS.
+Definition m_mux_panic : Wt -> Pst -> Pst -> M Pst := o_mux_panic OPS.
+Definition wF : Wt := w0 OPS.
+Definition wT : Wt := w1 OPS.
 
 (* ------------------------------------------------------------------ list helpers *)
 
@@ -122,7 +153,7 @@ Fixpoint mapM_M {A C} (f : A -> M C) (l : list A) : M (list C) :=
 
 (* for i in 0..n { out[i] = f(x[i], y[i]) }: both vectors are indexed, so a shorter one is an
    index panic; here both always have exactly the same length *)
-Fixpoint map2_M (f : W -> W -> M W) (xs ys : list W) : M (list W) :=
+Fixpoint map2_M (f : Wt -> Wt -> M Wt) (xs ys : list Wt) : M (list Wt) :=
   match xs, ys with
   | [], [] => ret []
   | x :: xr, y :: yr => do* w := f x y in do* ws := map2_M f xr yr in ret (w :: ws)
@@ -141,15 +172,25 @@ Definition splice {A} (v : list A) (a n : nat) (value : list A) : res (list A) :
 Definition szn (P : program) (t : ty) : nat := N.to_nat (Sem.sizeof P t).
 
 (* unsigned_as_wires / signed_as_wires: bit i = (n >> (size - 1 - i)) & 1 as wire 0 / 1 *)
-Definition unsigned_as_wires (n : N) (size : nat) : list W :=
-  map (fun i => if N.testbit n (N.of_nat (size - 1 - i)) then 1 else 0) (seq 0 size).
-Definition signed_as_wires (z : Z) (size : nat) : list W :=
-  map (fun i => if Z.testbit z (Z.of_nat (size - 1 - i)) then 1 else 0) (seq 0 size).
+Definition unsigned_as_wires (n : N) (size : nat) : list Wt :=
+  map (fun i => if N.testbit n (N.of_nat (size - 1 - i)) then wT else wF) (seq 0 size).
+Definition signed_as_wires (z : Z) (size : nat) : list Wt :=
+  map (fun i => if Z.testbit z (Z.of_nat (size - 1 - i)) then wT else wF) (seq 0 size).
 
 Definition is_signed (t : ty) : bool := match t with TInt true _ => true | _ => false end.
 
-Definition m_extend (v : list W) (t : ty) (bits : nat) : M (list W) :=
-  lift_res (extend_to_bits v (is_signed t) bits).
+(* extend_to_bits (Gadgets/Extend.v, tied there to the Rust function) over any wire type *)
+Definition extend_g (v : list Wt) (signed : bool) (bits : nat) : res (list Wt) :=
+  match v with
+  | [] => Ok (repeat wF bits)
+  | msb :: _ =>
+      if (length v =? bits)%nat then Ok v else
+      if (bits <? length v)%nat then Crash else
+      Ok (repeat (if signed then msb else wF) (bits - length v) ++ v)
+  end.
+
+Definition m_extend (v : list Wt) (t : ty) (bits : nat) : M (list Wt) :=
+  lift_res (extend_g v (is_signed t) bits).
 
 (* Type::unwrap_array_size *)
 Definition array_size (P : program) (t : ty) : res (nat * nat) :=
@@ -192,10 +233,10 @@ Definition struct_offsets (P : program) (t : ty) (field : N) : res (nat * nat) :
 
 (* ------------------------------------------------------------------ mux_envs *)
 
-Definition mux_bits (c : W) (xs ys : list W) : M (list W) :=
+Definition mux_bits (c : Wt) (xs ys : list Wt) : M (list Wt) :=
   if negb (length xs =? length ys)%nat then crash else map2_M (m_mux c) xs ys.
 
-Fixpoint mux_scope (c : W) (a b : scope) : M scope :=
+Fixpoint mux_scope (c : Wt) (a b : scope) : M scope :=
   match a with
   | [] => ret []
   | (k, va) :: r =>
@@ -209,7 +250,7 @@ Fixpoint mux_scope (c : W) (a b : scope) : M scope :=
   end.
 
 (* scopes outermost first, as the Vec is zipped *)
-Fixpoint mux_scopes (c : W) (sa sb : list scope) : M (list scope) :=
+Fixpoint mux_scopes (c : Wt) (sa sb : list scope) : M (list scope) :=
   match sa, sb with
   | [], [] => ret []
   | a :: ra, b :: rb =>
@@ -219,7 +260,7 @@ Fixpoint mux_scopes (c : W) (sa sb : list scope) : M (list scope) :=
   | _, _ => crash
   end.
 
-Definition mux_envs (c : W) (a b : cenv) : M cenv :=
+Definition mux_envs (c : Wt) (a b : cenv) : M cenv :=
   if negb (length a =? length b)%nat then crash else
   do* ss := mux_scopes c (rev a) (rev b) in ret (rev ss).
 
@@ -227,7 +268,7 @@ Definition mux_envs (c : W) (a b : cenv) : M cenv :=
 
 (* one mux layer of ArrayAccess: adjacent elements are muxed pairwise, the last element of
    an odd count is muxed with the out-of-bounds element (the constant-true wire) *)
-Fixpoint index_layer (fuel : nat) (s : W) (arr : list W) (eb : nat) : M (list W) :=
+Fixpoint index_layer (fuel : nat) (s : Wt) (arr : list Wt) (eb : nat) : M (list Wt) :=
   match fuel with
   | O => nofuel
   | S f =>
@@ -237,7 +278,7 @@ Fixpoint index_layer (fuel : nat) (s : W) (arr : list W) (eb : nat) : M (list W)
           let c0 := firstn eb arr in
           let rest := skipn eb arr in
           match rest with
-          | [] => mapM_M (fun a0 => m_mux s 1 a0) c0
+          | [] => mapM_M (fun a0 => m_mux s wT a0) c0
           | _ =>
               let c1 := firstn eb rest in
               do* ws := map2_M (fun a1 a0 => m_mux s a1 a0) c1 c0 in
@@ -248,7 +289,7 @@ Fixpoint index_layer (fuel : nat) (s : W) (arr : list W) (eb : nat) : M (list W)
   end.
 
 (* for mux_layer in (0..index.len()).rev(): least significant index bit first *)
-Fixpoint index_layers (idx_rev : list W) (arr : list W) (eb : nat) : M (list W) :=
+Fixpoint index_layers (idx_rev : list Wt) (arr : list Wt) (eb : nat) : M (list Wt) :=
   match idx_rev with
   | [] => ret arr
   | s :: r =>
@@ -259,23 +300,23 @@ Fixpoint index_layers (idx_rev : list W) (arr : list W) (eb : nat) : M (list W) 
 Definition USZ : nat := 32.
 
 (* the bounds check shared by reads and writes: index < num_elems, else panic OutOfBounds *)
-Definition bounds_check (index : list W) (num_elems : nat) (m : meta) : M unit :=
+Definition bounds_check (index : list Wt) (num_elems : nat) (m : meta) : M unit :=
   let array_len := unsigned_as_wires (N.of_nat num_elems) USZ in
-  do* (lt, _) := liftb (fun b => push_comparator_circuit b USZ index false array_len false) in
+  do* (lt, _) := o_comparator OPS USZ index false array_len false in
   do* oob := m_not lt in
   m_panic_if oob OutOfBounds m.
 
 (* the read: returns the selected element (elem_bits wires) *)
-Definition array_read (arr : list W) (index : list W) (eb num_elems : nat) (m : meta)
-  : M (list W * list W) :=
+Definition array_read (arr : list Wt) (index : list Wt) (eb num_elems : nat) (m : meta)
+  : M (list Wt * list Wt) :=
   do* index := m_extend index (TInt false 32) USZ in
   do* arr' := index_layers (rev index) arr eb in
   do* _ := bounds_check index num_elems m in
-  ret (match arr' with [] => repeat 0 eb | _ => arr' end, index).
+  ret (match arr' with [] => repeat wF eb | _ => arr' end, index).
 
 (* the write-back of Assign::Array: element i, bit b becomes a 32-mux chain selecting
    value[b] iff index == i *)
-Fixpoint write_chain (x0 : W) (x1 : W) (i : N) (index neg : list W) : M W :=
+Fixpoint write_chain (x0 : Wt) (x1 : Wt) (i : N) (index neg : list Wt) : M Wt :=
   match index, neg with
   | ix :: ir, nx :: nr =>
       let must_neg := N.testbit i (N.of_nat (length index - 1)) in
@@ -284,7 +325,7 @@ Fixpoint write_chain (x0 : W) (x1 : W) (i : N) (index neg : list W) : M W :=
   | _, _ => ret x1
   end.
 
-Fixpoint write_elem (elem : list W) (value : list W) (i : N) (index neg : list W) : M (list W) :=
+Fixpoint write_elem (elem : list Wt) (value : list Wt) (i : N) (index neg : list Wt) : M (list Wt) :=
   match elem with
   | [] => ret []
   | x0 :: er =>
@@ -297,8 +338,8 @@ Fixpoint write_elem (elem : list W) (value : list W) (i : N) (index neg : list W
       end
   end.
 
-Fixpoint write_elems (fuel : nat) (arr : list W) (eb : nat) (value : list W) (i : N)
-    (index neg : list W) : M (list W) :=
+Fixpoint write_elems (fuel : nat) (arr : list Wt) (eb : nat) (value : list Wt) (i : N)
+    (index neg : list Wt) : M (list Wt) :=
   match fuel with
   | O => nofuel
   | S f =>
@@ -312,8 +353,8 @@ Fixpoint write_elems (fuel : nat) (arr : list W) (eb : nat) (value : list W) (i 
       end
   end.
 
-Definition array_write (arr : list W) (eb : nat) (index : list W) (value : list W) (m : meta)
-  : M (list W) :=
+Definition array_write (arr : list Wt) (eb : nat) (index : list Wt) (value : list Wt) (m : meta)
+  : M (list Wt) :=
   if (eb =? 0)%nat then crash (* array.len() / elem_bits *) else
   let size := (length arr / eb)%nat in
   do* index := m_extend index (TInt false 32) USZ in
@@ -325,14 +366,14 @@ Definition array_write (arr : list W) (eb : nat) (index : list W) (value : list 
 (* ------------------------------------------------------------------ operators *)
 
 (* the 8 mux layers of << and >>; [y_rev]: shift amount, least significant bit first *)
-Definition shift_once (left : bool) (fill : W) (v : list W) (shift : nat) : list W :=
+Definition shift_once (left : bool) (fill : Wt) (v : list Wt) (shift : nat) : list Wt :=
   let bits := length v in
-  map (fun i => if left then (if (bits <=? i + shift)%nat then 0 else nth (i + shift) v 0)
-                else (if (i <? shift)%nat then fill else nth (i - shift) v 0))
+  map (fun i => if left then (if (bits <=? i + shift)%nat then wF else nth (i + shift) v wF)
+                else (if (i <? shift)%nat then fill else nth (i - shift) v wF))
       (seq 0 bits).
 
-Fixpoint shift_layers (left : bool) (fill : W) (v : list W) (y_rev : list W) (shift : nat)
-  : M (list W) :=
+Fixpoint shift_layers (left : bool) (fill : Wt) (v : list Wt) (y_rev : list Wt) (shift : nat)
+  : M (list Wt) :=
   match y_rev with
   | [] => ret v
   | s :: r =>
@@ -341,14 +382,14 @@ Fixpoint shift_layers (left : bool) (fill : W) (v : list W) (y_rev : list W) (sh
       shift_layers left fill v' r (2 * shift)
   end.
 
-Fixpoint or_all_M (acc : W) (ws : list W) : M W :=
+Fixpoint or_all_M (acc : Wt) (ws : list Wt) : M Wt :=
   match ws with
   | [] => ret acc
   | w :: r => do* o := m_or acc w in or_all_M o r
   end.
 
 (* all_zero / equality accumulators: acc = and(acc, eq(x, y)) *)
-Fixpoint eq_acc (acc : W) (xys : list (W * W)) : M W :=
+Fixpoint eq_acc (acc : Wt) (xys : list (Wt * Wt)) : M Wt :=
   match xys with
   | [] => ret acc
   | (x, y) :: r => do* e := m_eq x y in do* a := m_and acc e in eq_acc a r
@@ -357,60 +398,60 @@ Fixpoint eq_acc (acc : W) (xys : list (W * W)) : M W :=
 (* one row of the array multiplier, columns from the least significant one;
    [yzs_rev]: (y[j], z for column j), least significant column first; returns the sums of
    the row (most significant first) and the carry out of column 0 *)
-Fixpoint mul_row (xi : W) (yzs_rev : list (W * W)) (carry : W) (acc : list W) : M (list W * W) :=
+Fixpoint mul_row (xi : Wt) (yzs_rev : list (Wt * Wt)) (carry : Wt) (acc : list Wt) : M (list Wt * Wt) :=
   match yzs_rev with
   | [] => ret (acc, carry)
   | (yj, z) :: r =>
-      do* (s, c) := liftb (fun b => push_multiplier b xi yj z carry) in
+      do* (s, c) := o_multiplier OPS xi yj z carry in
       mul_row xi r c (s :: acc)
   end.
 
 (* rows from i = bits-1 down to 0; [prev]: the sums and the column-0 carry of row i+1;
    collects result[i] = sums[i][lsb] (most significant first) *)
-Fixpoint mul_rows (xs_rev : list W) (y : list W) (prev : option (list W * W)) (res_acc : list W)
-  : M (list W * option (list W * W)) :=
+Fixpoint mul_rows (xs_rev : list Wt) (y : list Wt) (prev : option (list Wt * Wt)) (res_acc : list Wt)
+  : M (list Wt * option (list Wt * Wt)) :=
   match xs_rev with
   | [] => ret (res_acc, prev)
   | xi :: r =>
       let zs := match prev with
-                | None => repeat 0 (length y)
+                | None => repeat wF (length y)
                 | Some (sums, c0) => c0 :: removelast sums
                 end in
-      do* (sums, c0) := mul_row xi (rev (combine y zs)) 0 [] in
-      mul_rows r y (Some (sums, c0)) (last sums 0 :: res_acc)
+      do* (sums, c0) := mul_row xi (rev (combine y zs)) wF [] in
+      mul_rows r y (Some (sums, c0)) (last sums wF :: res_acc)
   end.
 
-Fixpoint and_not_all (acc : W) (ws : list W) : M W :=
+Fixpoint and_not_all (acc : Wt) (ws : list Wt) : M Wt :=
   match ws with
   | [] => ret acc
   | w :: r => do* nw := m_not w in do* a := m_and acc nw in and_not_all a r
   end.
 
-Definition lower_mul (signed : bool) (x y : list W) (m : meta) : M (list W) :=
+Definition lower_mul (signed : bool) (x y : list Wt) (m : meta) : M (list Wt) :=
   do* (x, y, is_result_neg) :=
     (if signed then
        do* x0 := lift_res (hd_res x) in
        do* y0 := lift_res (hd_res y) in
-       do* xn := liftb (fun b => push_negation_circuit b x) in
-       do* yn := liftb (fun b => push_negation_circuit b y) in
+       do* xn := o_negation OPS x in
+       do* yn := o_negation OPS y in
        do* x' := map2_M (fun n w => m_mux x0 n w) xn x in
        do* y' := map2_M (fun n w => m_mux y0 n w) yn y in
        do* rn := m_xor x0 y0 in
        ret (x', y', rn)
-     else ret (x, y, 0)) in
+     else ret (x, y, wF)) in
   do* (result, top) := mul_rows (rev x) y None [] in
   do* (sums0, c00) := lift_res (of_option top) in
   do* overflow := or_all_M c00 (removelast sums0) in
   do* (overflow, result) :=
     (if signed then
-       do* all_zero := and_not_all 1 (tl result) in
+       do* all_zero := and_not_all wT (tl result) in
        do* r0 := lift_res (hd_res result) in
        do* not_all_zero := m_not all_zero in
        do* not_neg := m_not is_result_neg in
        do* not_min := m_or not_all_zero not_neg in
        do* too_large := m_and r0 not_min in
        do* overflow := m_or overflow too_large in
-       do* rneg := liftb (fun b => push_negation_circuit b result) in
+       do* rneg := o_negation OPS result in
        do* result' := map2_M (fun n w => m_mux is_result_neg n w) rneg result in
        ret (overflow, result')
      else ret (overflow, result)) in
@@ -448,7 +489,7 @@ Definition max_filled_bits (bits : nat) : res nat :=
   else if (bits =? 32)%nat then Ok 5%nat else if (bits =? 64)%nat then Ok 6%nat else Crash.
 
 (* the operators that take both operands extended to a common width *)
-Definition lower_binop (o : binop) (t tx ty_ : ty) (x y : list W) (m : meta) : M (list W) :=
+Definition lower_binop (o : binop) (t tx ty_ : ty) (x y : list Wt) (m : meta) : M (list Wt) :=
   let bits := Nat.max (length x) (length y) in
   do* x := m_extend x tx bits in
   do* y := m_extend y ty_ bits in
@@ -457,38 +498,38 @@ Definition lower_binop (o : binop) (t tx ty_ : ty) (x y : list W) (m : meta) : M
   | OBitXor => map2_M m_xor x y
   | OBitOr => map2_M m_or x y
   | OSub =>
-      do* (sum, ov) := liftb (fun b => push_subtraction_circuit b x y (is_signed t)) in
+      do* (sum, ov) := o_subtraction OPS x y (is_signed t) in
       do* _ := m_panic_if ov Overflow m in ret sum
   | OAdd =>
-      do* (sum, carry, carry_prev) := liftb (fun b => push_addition_circuit b x y) in
+      do* (sum, carry, carry_prev) := o_addition OPS x y in
       do* ov := (if is_signed tx || is_signed ty_ then m_xor carry carry_prev else ret carry) in
       do* _ := m_panic_if ov Overflow m in ret sum
   | OMul => lower_mul (is_signed t) x y m
   | ODiv =>
-      do* all_zero := eq_acc 1 (map (fun w => (w, 0)) y) in
+      do* all_zero := eq_acc wT (map (fun w => (w, wF)) y) in
       do* _ := m_panic_if all_zero DivByZero m in
       if is_signed t then
         do* x0 := lift_res (hd_res x) in
         do* y0 := lift_res (hd_res y) in
-        do* (q, _) := liftb (fun b => push_signed_division_circuit b x y) in
+        do* (q, _) := o_sdiv OPS x y in
         do* both_neg := m_and x0 y0 in
         do* q0 := lift_res (hd_res q) in
         do* ov := m_and both_neg q0 in
         do* _ := m_panic_if ov Overflow m in ret q
       else
-        do* (q, _) := liftb (fun b => push_unsigned_division_circuit b x y) in ret q
+        do* (q, _) := o_udiv OPS x y in ret q
   | OMod =>
-      do* all_zero := eq_acc 1 (map (fun w => (w, 0)) y) in
+      do* all_zero := eq_acc wT (map (fun w => (w, wF)) y) in
       do* _ := m_panic_if all_zero DivByZero m in
       if is_signed t then
-        do* (_, r) := liftb (fun b => push_signed_division_circuit b x y) in ret r
+        do* (_, r) := o_sdiv OPS x y in ret r
       else
-        do* (_, r) := liftb (fun b => push_unsigned_division_circuit b x y) in ret r
+        do* (_, r) := o_udiv OPS x y in ret r
   | OGt | OLt =>
-      do* (lt, gt) := liftb (fun b => push_comparator_circuit b bits x (is_signed tx) y (is_signed ty_)) in
+      do* (lt, gt) := o_comparator OPS bits x (is_signed tx) y (is_signed ty_) in
       ret [match o with OGt => gt | _ => lt end]
   | OEq | ONe =>
-      do* acc := (if (length x =? length y)%nat then eq_acc 1 (combine x y) else crash) in
+      do* acc := (if (length x =? length y)%nat then eq_acc wT (combine x y) else crash) in
       match o with
       | OEq => ret [acc]
       | _ => do* n := m_not acc in ret [n]
@@ -496,13 +537,13 @@ Definition lower_binop (o : binop) (t tx ty_ : ty) (x y : list W) (m : meta) : M
   | OShl | OShr | OLAnd | OLOr => crash   (* unreachable!: handled one level up *)
   end.
 
-Definition lower_shift (left : bool) (x_signed : bool) (x y : list W) (m : meta) : M (list W) :=
+Definition lower_shift (left : bool) (x_signed : bool) (x y : list Wt) (m : meta) : M (list Wt) :=
   if negb (length y =? 8)%nat then crash else
   let bits := length x in
-  do* fill := (if x_signed && negb left then lift_res (hd_res x) else ret 0) in
+  do* fill := (if x_signed && negb left then lift_res (hd_res x) else ret wF) in
   do* v := shift_layers left fill x (rev y) 1 in
   do* mfb := lift_res (max_filled_bits bits) in
-  do* overflow := or_all_M 0 (firstn (8 - mfb) y) in
+  do* overflow := or_all_M wF (firstn (8 - mfb) y) in
   do* _ := m_panic_if overflow Overflow m in
   ret v.
 
@@ -526,21 +567,21 @@ Fixpoint pow2_ge (fuel : nat) (p n : nat) : nat :=
 Definition next_power_of_two (n : nat) : nat := pow2_ge (S n) 1 n.
 
 (* v.resize(n, 0) *)
-Definition resize (v : list W) (n : nat) : list W :=
-  firstn n v ++ repeat 0 (n - length v).
+Definition resize (v : list Wt) (n : nat) : list Wt :=
+  firstn n v ++ repeat wF (n - length v).
 
 (* v.insert(i, x): panics if i > len *)
-Definition insert_at (v : list W) (i : nat) (x : W) : res (list W) :=
+Definition insert_at (v : list Wt) (i : nat) (x : Wt) : res (list Wt) :=
   if (i <=? length v)%nat then Ok (firstn i v ++ x :: skipn i v) else Crash.
 
 (* v.remove(i): panics if i >= len *)
-Definition remove_at (v : list W) (i : nat) : res (W * list W) :=
+Definition remove_at (v : list Wt) (i : nat) : res (Wt * list Wt) :=
   match nth_error v i with
   | Some x => Ok (x, firstn i v ++ skipn (S i) v)
   | None => Crash
   end.
 
-Fixpoint chunks (fuel : nat) (v : list W) (eb : nat) (n : nat) : res (list (list W)) :=
+Fixpoint chunks (fuel : nat) (v : list Wt) (eb : nat) (n : nat) : res (list (list Wt)) :=
   match n with
   | O => Ok []
   | S k =>
@@ -551,27 +592,27 @@ Fixpoint chunks (fuel : nat) (v : list W) (eb : nat) (n : nat) : res (list (list
 
 (* the bitonic sequence handed to push_bitonic_merger: padding, a ascending, b reversed,
    each element resized to max_elem_bits with the tag bit inserted after the join key *)
-Definition bitonic_input (a b : list W) (eba na ebb nb jts : nat) : res (list (list W) * nat) :=
+Definition bitonic_input (a b : list Wt) (eba na ebb nb jts : nat) : res (list (list Wt) * nat) :=
   let max_eb := Nat.max eba ebb in
   let num_elems := next_power_of_two (na + nb) in
   let num_empty := (num_elems - na - nb)%nat in
   let* ca := chunks O a eba na in
   let* cb_ := chunks O b ebb nb in
-  let* ea := mapM_res (fun v => insert_at (resize v max_eb) jts 0) ca in
-  let* eb_ := mapM_res (fun v => insert_at (resize v max_eb) jts 1) (rev cb_) in
-  Ok (repeat (repeat 0 (S max_eb)) num_empty ++ ea ++ eb_, num_empty).
+  let* ea := mapM_res (fun v => insert_at (resize v max_eb) jts wF) ca in
+  let* eb_ := mapM_res (fun v => insert_at (resize v max_eb) jts wT) (rev cb_) in
+  Ok (repeat (repeat wF (S max_eb)) num_empty ++ ea ++ eb_, num_empty).
 
 (* what is done for one window (slice[0], slice[1]) before process_binding *)
-Definition window_binding (w0 w1 : list W) (eba ebb jts : nat) (is_func include_b : bool)
-  : M (W * list W) :=
+Definition window_binding (w0 w1 : list Wt) (eba ebb jts : nat) (is_func include_b : bool)
+  : M (Wt * list Wt) :=
   do* (tag_a, a) := lift_res (remove_at w0 jts) in
   let a := firstn eba a in
   do* (tag_b, b) := lift_res (remove_at w1 jts) in
   let b := firstn ebb b in
-  let binding := (if is_func then [0] else []) ++ a ++ (if include_b then b else []) in
+  let binding := (if is_func then [wF] else []) ++ a ++ (if include_b then b else []) in
   do* join_a := lift_res (slice a 0 jts) in
   do* join_b := lift_res (slice b 0 jts) in
-  do* je := liftb (fun bd => push_eq_circuit bd join_a join_b) in
+  do* je := o_eq_circuit OPS join_a join_b in
   do* td := m_xor tag_a tag_b in
   do* je := m_and je td in
   ret (je, if is_func then je :: tl binding else binding).
@@ -580,11 +621,11 @@ Definition window_binding (w0 w1 : list W) (eba ebb jts : nat) (is_func include_
    patterns *)
 
 Fixpoint lower_expr (fuel : nat) (P : program) (e : expr) (E : cenv) {struct fuel}
-  : M (list W * cenv) :=
+  : M (list Wt * cenv) :=
   match fuel with
   | O => nofuel
   | S f =>
-    let lower_list := fix go (es : list expr) (E : cenv) : M (list (list W) * cenv) :=
+    let lower_list := fix go (es : list expr) (E : cenv) : M (list (list Wt) * cenv) :=
       match es with
       | [] => ret ([], E)
       | e1 :: r =>
@@ -595,8 +636,8 @@ Fixpoint lower_expr (fuel : nat) (P : program) (e : expr) (E : cenv) {struct fue
     match e with
     | Ex ei m t =>
       match ei with
-      | ETrue => ret ([1], E)
-      | EFalse => ret ([0], E)
+      | ETrue => ret ([wT], E)
+      | EFalse => ret ([wF], E)
       | ENumU n _ => ret (unsigned_as_wires n (szn P t), E)
       | ENumS z _ => ret (signed_as_wires z (szn P t), E)
       | EId x => match env_get E x with Some v => ret (v, E) | None => crash end
@@ -631,7 +672,7 @@ Fixpoint lower_expr (fuel : nat) (P : program) (e : expr) (E : cenv) {struct fue
           match assocN name (p_structs P) with
           | Some def =>
               do* (ws, E1) :=
-                (fix go (ds : list (N * ty)) (E : cenv) : M (list (list W) * cenv) :=
+                (fix go (ds : list (N * ty)) (E : cenv) : M (list (list Wt) * cenv) :=
                    match ds with
                    | [] => ret ([], E)
                    | (fname, _) :: r =>
@@ -655,7 +696,7 @@ Fixpoint lower_expr (fuel : nat) (P : program) (e : expr) (E : cenv) {struct fue
               let payload := concat ws in
               if (tag_size + length payload <=? max_size)%nat then
                 ret (unsigned_as_wires variant tag_size ++ payload
-                       ++ repeat 0 (max_size - tag_size - length payload), E1)
+                       ++ repeat wF (max_size - tag_size - length payload), E1)
               else crash
           | None => crash
           end
@@ -664,8 +705,8 @@ Fixpoint lower_expr (fuel : nat) (P : program) (e : expr) (E : cenv) {struct fue
           do* (sw, E0) := lower_expr f P scrut E in
           do* P0 := m_peek in
           do* (ret_w, muxed_panic, muxed_env, _) :=
-            (fix go (arms : list (pattern * expr)) (has_prev : W) (mret : list W) (mpanic : pstate)
-                 (menv : cenv) : M (list W * pstate * cenv * W) :=
+            (fix go (arms : list (pattern * expr)) (has_prev : Wt) (mret : list Wt) (mpanic : Pst)
+                 (menv : cenv) : M (list Wt * Pst * cenv * Wt) :=
                match arms with
                | [] => ret (mret, mpanic, menv, has_prev)
                | (pat, body) :: r =>
@@ -682,12 +723,12 @@ Fixpoint lower_expr (fuel : nat) (P : program) (e : expr) (E : cenv) {struct fue
                                  else map2_M (fun x0 x1 => m_mux s x0 x1) (firstn bits rw) mret) in
                    do* has_prev' := m_or has_prev is_match in
                    go r has_prev' mret' mpanic' menv'
-               end) arms 0 (repeat 0 bits) P0 E0 in
+               end) arms wF (repeat wF bits) P0 E0 in
           do* _ := m_replace muxed_panic in
           ret (ret_w, muxed_env)
       | ENeg e1 =>
           do* (x, E1) := lower_expr f P e1 E in
-          do* neg := liftb (fun b => push_negation_circuit b x) in
+          do* neg := o_negation OPS x in
           do* x0 := lift_res (hd_res x) in
           do* n0 := lift_res (hd_res neg) in
           do* ov := m_and x0 n0 in
@@ -740,7 +781,7 @@ Fixpoint lower_expr (fuel : nat) (P : program) (e : expr) (E : cenv) {struct fue
           | Some fd =>
               do* (bindings, E1) :=
                 (fix go (ps : list (N * ty)) (args : list expr) (E : cenv)
-                   : M (list (N * list W) * cenv) :=
+                   : M (list (N * list Wt) * cenv) :=
                    match ps, args with
                    | (pn, _) :: pr, a :: ar =>
                        do* (w, Ea) := lower_expr f P a (env_push E) in
@@ -768,21 +809,21 @@ Fixpoint lower_expr (fuel : nat) (P : program) (e : expr) (E : cenv) {struct fue
           do* (aw, E1) := lower_expr f P a E in
           do* (bw, E2) := lower_expr f P b E1 in
           do* (bitonic, num_empty) := lift_res (bitonic_input aw bw eba na ebb nb jts) in
-          do* sorted := liftb (fun bd => push_bitonic_merger (S (length bitonic)) bd (S jts) true bitonic) in
+          do* sorted := o_merger OPS (S jts) true bitonic in
           do* joined :=
-            (fix go (ws : list (list W)) : M (list (list W)) :=
+            (fix go (ws : list (list Wt)) : M (list (list Wt)) :=
                match ws with
                | w0 :: ((w1 :: _) as r) =>
                    do* (je, binding) := window_binding w0 w1 eba ebb jts true has_assoc in
                    do* bd := (match binding with
                               | [] => ret []
-                              | h :: tlb => do* tl' := mapM_M (fun g => m_mux je g 0) tlb in ret (h :: tl')
+                              | h :: tlb => do* tl' := mapM_M (fun g => m_mux je g wF) tlb in ret (h :: tl')
                               end) in
                    do* rest := go r in
                    ret (bd :: rest)
                | _ => ret []
                end) (skipn num_empty sorted) in
-          do* joined := liftb (fun bd => push_bitonic_sorter bd 1 joined) in
+          do* joined := o_sorter OPS 1 joined in
           ret (concat joined, E2)
       | EIf c tbranch fbranch =>
           do* (cw, E0) := lower_expr f P c E in
@@ -812,12 +853,12 @@ Fixpoint lower_expr (fuel : nat) (P : program) (e : expr) (E : cenv) {struct fue
   end
 
 with lower_block (fuel : nat) (P : program) (stmts : list stmt) (E : cenv) {struct fuel}
-  : M (list W * cenv) :=
+  : M (list Wt * cenv) :=
   match fuel with
   | O => nofuel
   | S f =>
       do* (w, E1) :=
-        (fix go (ss : list stmt) (last : list W) (E : cenv) : M (list W * cenv) :=
+        (fix go (ss : list stmt) (last : list Wt) (E : cenv) : M (list Wt * cenv) :=
            match ss with
            | [] => ret (last, E)
            | s :: r => do* (w, E1) := lower_stmt f P s E in go r w E1
@@ -827,7 +868,7 @@ with lower_block (fuel : nat) (P : program) (stmts : list stmt) (E : cenv) {stru
   end
 
 with lower_stmt (fuel : nat) (P : program) (s : stmt) (E : cenv) {struct fuel}
-  : M (list W * cenv) :=
+  : M (list Wt * cenv) :=
   match fuel with
   | O => nofuel
   | S f =>
@@ -853,9 +894,9 @@ with lower_stmt (fuel : nat) (P : program) (s : stmt) (E : cenv) {struct fuel}
           do* coll := (match env_get E1 x with Some v => ret v | None => crash end) in
           (* forward pass: read through the accessors, remembering what to write back *)
           do* (accessed, E2) :=
-            (fix go (accs : list accessor) (coll : list W) (E : cenv)
-                 (acc : list (list W * nat * nat * option (list W)))
-               : M (list (list W * nat * nat * option (list W)) * cenv) :=
+            (fix go (accs : list accessor) (coll : list Wt) (E : cenv)
+                 (acc : list (list Wt * nat * nat * option (list Wt)))
+               : M (list (list Wt * nat * nat * option (list Wt)) * cenv) :=
                match accs with
                | [] => ret (acc, E)
                | AIdx arr_ty idx :: r =>
@@ -874,8 +915,8 @@ with lower_stmt (fuel : nat) (P : program) (s : stmt) (E : cenv) {struct fuel}
                end) accs coll E1 [] in
           (* backward pass (accessed.into_iter().rev() = the accumulated list as is) *)
           do* value' :=
-            (fix back (acc : list (list W * nat * nat * option (list W))) (value : list W)
-               : M (list W) :=
+            (fix back (acc : list (list Wt * nat * nat * option (list Wt))) (value : list Wt)
+               : M (list Wt) :=
                match acc with
                | [] => ret value
                | (before, a, n, Some iw) :: r =>
@@ -889,7 +930,7 @@ with lower_stmt (fuel : nat) (P : program) (s : stmt) (E : cenv) {struct fuel}
           do* (eb, _) := lift_res (array_size P (e_ty arr)) in
           do* (aw, E1) := lower_expr f P arr E in
           do* E2 :=
-            (fix go (n : nat) (aw : list W) (E : cenv) : M cenv :=
+            (fix go (n : nat) (aw : list Wt) (E : cenv) : M cenv :=
                match n with
                | O => ret E
                | S k =>
@@ -911,9 +952,9 @@ with lower_stmt (fuel : nat) (P : program) (s : stmt) (E : cenv) {struct fuel}
           do* (aw, E1) := lower_expr f P a E in
           do* (bw, E2) := lower_expr f P b E1 in
           do* (bitonic, num_empty) := lift_res (bitonic_input aw bw eba na ebb nb jts) in
-          do* sorted := liftb (fun bd => push_bitonic_merger (S (length bitonic)) bd (S jts) true bitonic) in
+          do* sorted := o_merger OPS (S jts) true bitonic in
           do* E3 :=
-            (fix go (ws : list (list W)) (E : cenv) : M cenv :=
+            (fix go (ws : list (list Wt)) (E : cenv) : M cenv :=
                match ws with
                | w0 :: ((w1 :: _) as r) =>
                    do* (je, binding) := window_binding w0 w1 eba ebb jts false true in
@@ -933,30 +974,30 @@ with lower_stmt (fuel : nat) (P : program) (s : stmt) (E : cenv) {struct fuel}
     end
   end
 
-with lower_pattern (fuel : nat) (P : program) (p : pattern) (mw : list W) (E : cenv) {struct fuel}
-  : M (W * cenv) :=
+with lower_pattern (fuel : nat) (P : program) (p : pattern) (mw : list Wt) (E : cenv) {struct fuel}
+  : M (Wt * cenv) :=
   match fuel with
   | O => nofuel
   | S f =>
     match p with
     | Pat pi _ t =>
-      let range_match (lo hi : list W) : M (W * cenv) :=
+      let range_match (lo hi : list Wt) : M (Wt * cenv) :=
         let bits := szn P t in
         let sg := is_signed t in
-        do* (lt_min, _) := liftb (fun b => push_comparator_circuit b bits mw sg lo sg) in
-        do* (_, gt_max) := liftb (fun b => push_comparator_circuit b bits mw sg hi sg) in
+        do* (lt_min, _) := o_comparator OPS bits mw sg lo sg in
+        do* (_, gt_max) := o_comparator OPS bits mw sg hi sg in
         do* a := m_not lt_min in
         do* c := m_not gt_max in
         do* r := m_and a c in
         ret (r, E) in
-      let eq_match (n : list W) : M (W * cenv) :=
+      let eq_match (n : list Wt) : M (Wt * cenv) :=
         let bits := szn P t in
         if (length mw <? bits)%nat then crash else
-        do* acc := eq_acc 1 (combine n (firstn bits mw)) in
+        do* acc := eq_acc wT (combine n (firstn bits mw)) in
         ret (acc, E) in
       (* sub-patterns over consecutive slices of the matched wires *)
-      let fields_match := fix go (ps : list (pattern * nat)) (w : nat) (is_match : W) (E : cenv)
-          : M (W * cenv) :=
+      let fields_match := fix go (ps : list (pattern * nat)) (w : nat) (is_match : Wt) (E : cenv)
+          : M (Wt * cenv) :=
         match ps with
         | [] => ret (is_match, E)
         | (fp, fbits) :: r =>
@@ -966,7 +1007,7 @@ with lower_pattern (fuel : nat) (P : program) (p : pattern) (mw : list W) (E : c
             go r (w + fbits)%nat is_match' E1
         end in
       match pi with
-      | PId x => do* E1 := lift_res (env_let E x mw) in ret (1, E1)
+      | PId x => do* E1 := lift_res (env_let E x mw) in ret (wT, E1)
       | PTrue => match mw with [w] => ret (w, E) | _ => crash end
       | PFalse => match mw with [w] => do* n := m_not w in ret (n, E) | _ => crash end
       | PNumU n => eq_match (unsigned_as_wires n (szn P t))
@@ -975,11 +1016,11 @@ with lower_pattern (fuel : nat) (P : program) (p : pattern) (mw : list W) (E : c
           range_match (unsigned_as_wires lo (szn P t)) (unsigned_as_wires hi (szn P t))
       | PSRange lo hi =>
           range_match (signed_as_wires lo (szn P t)) (signed_as_wires hi (szn P t))
-      | PTup ps => fields_match (map (fun fp => (fp, szn P (p_ty fp))) ps) O 1 E
+      | PTup ps => fields_match (map (fun fp => (fp, szn P (p_ty fp))) ps) O wT E
       | PStruct name _ fields =>
           match assocN name (p_structs P) with
           | Some def =>
-              (fix go (ds : list (N * ty)) (w : nat) (is_match : W) (E : cenv) : M (W * cenv) :=
+              (fix go (ds : list (N * ty)) (w : nat) (is_match : Wt) (E : cenv) : M (Wt * cenv) :=
                  match ds with
                  | [] => ret (is_match, E)
                  | (fname, fty) :: r =>
@@ -992,7 +1033,7 @@ with lower_pattern (fuel : nat) (P : program) (p : pattern) (mw : list W) (E : c
                          go r (w + fbits)%nat is_match' E1
                      | None => go r (w + fbits)%nat is_match E
                      end
-                 end) def O 1 E
+                 end) def O wT E
           | None => crash
           end
       | PEnumUnit ename variant | PEnumTup ename variant _ =>
@@ -1001,13 +1042,13 @@ with lower_pattern (fuel : nat) (P : program) (p : pattern) (mw : list W) (E : c
               let tag_size := enum_tag_size variants in
               do* tag_actual := lift_res (slice mw 0 tag_size) in
               let tag_expected := unsigned_as_wires variant tag_size in
-              do* is_match := eq_acc 1 (combine tag_expected tag_actual) in
+              do* is_match := eq_acc wT (combine tag_expected tag_actual) in
               match pi with
               | PEnumTup _ _ ps =>
                   match nthN variants variant with
                   | Some field_types =>
-                      (fix go (ps : list pattern) (fts : list ty) (w : nat) (is_match : W) (E : cenv)
-                         : M (W * cenv) :=
+                      (fix go (ps : list pattern) (fts : list ty) (w : nat) (is_match : Wt) (E : cenv)
+                         : M (Wt * cenv) :=
                          match ps, fts with
                          | fp :: pr, ft :: fr =>
                              let fbits := szn P ft in
@@ -1027,8 +1068,53 @@ with lower_pattern (fuel : nat) (P : program) (p : pattern) (mw : list W) (E : c
     end
   end.
 
+End Generic.
+
+Arguments ops : clear implicits.
+Arguments mkOps {Wt Cs Pst}.
+
 (* ------------------------------------------------------------------ compile_with_constants
    (programs whose constants are literals; external constants: Compile/Consts.v, C12) *)
+
+(* ------------------------------------------------------------------ the builder instance *)
+
+(* the CircuitBuilder: gate store + its panic_gates *)
+Record cst := mkCst { cb : builder; cp : pstate }.
+
+Definition liftb {A} (f : builder -> res (A * builder)) : cst -> res (A * cst) :=
+  fun s => let* (a, b') := f (cb s) in Ok (a, mkCst b' (cp s)).
+
+Definition b_panic_if (cond : W) (r : preason) (m : meta) : cst -> res (unit * cst) :=
+  fun s => let* (P', b') := push_panic_if (cb s) (cp s) cond r
+                              (mkPLoc (m_sl m) (m_sc m) (m_el m) (m_ec m)) in
+           Ok (tt, mkCst b' P').
+Definition b_mux_panic (c : W) (T F : pstate) : cst -> res (pstate * cst) :=
+  fun s => let* (P, b') := mux_panic (cb s) c T F in Ok (P, mkCst b' (cp s)).
+
+Definition bops : ops W cst pstate := {|
+  w0 := 0;
+  w1 := 1;
+  o_xor := fun x y => liftb (fun b => push_xor_top b x y);
+  o_and := fun x y => liftb (fun b => push_and_top b x y);
+  o_or := fun x y => liftb (fun b => push_or b x y);
+  o_eq := fun x y => liftb (fun b => push_eq b x y);
+  o_not := fun x => liftb (fun b => push_not b x);
+  o_mux := fun s x0 x1 => liftb (fun b => push_mux b s x0 x1);
+  o_negation := fun x => liftb (fun b => push_negation_circuit b x);
+  o_addition := fun x y => liftb (fun b => push_addition_circuit b x y);
+  o_subtraction := fun x y sg => liftb (fun b => push_subtraction_circuit b x y sg);
+  o_multiplier := fun x y z c => liftb (fun b => push_multiplier b x y z c);
+  o_udiv := fun x y => liftb (fun b => push_unsigned_division_circuit b x y);
+  o_sdiv := fun x y => liftb (fun b => push_signed_division_circuit b x y);
+  o_comparator := fun bits x sx y sy => liftb (fun b => push_comparator_circuit b bits x sx y sy);
+  o_eq_circuit := fun x y => liftb (fun b => push_eq_circuit b x y);
+  o_merger := fun bits asc v => liftb (fun b => push_bitonic_merger (S (length v)) b bits asc v);
+  o_sorter := fun bits v => liftb (fun b => push_bitonic_sorter b bits v);
+  o_panic_if := b_panic_if;
+  o_peek := fun s => Ok (cp s, s);
+  o_replace := fun P s => Ok (cp s, mkCst (cb s) P);
+  o_mux_panic := b_mux_panic
+|}.
 
 Inductive lowered :=
 | LCircuit (c : circuit)
@@ -1039,8 +1125,8 @@ Definition const_wires (P : program) (e : expr) : res (list W) :=
   match e with
   | Ex ETrue _ _ => Ok [1]
   | Ex EFalse _ _ => Ok [0]
-  | Ex (ENumU n lb) _ _ => Ok (unsigned_as_wires n (N.to_nat lb))
-  | Ex (ENumS z lb) _ _ => Ok (signed_as_wires z (N.to_nat lb))
+  | Ex (ENumU n lb) _ _ => Ok (unsigned_as_wires bops n (N.to_nat lb))
+  | Ex (ENumS z lb) _ _ => Ok (signed_as_wires bops z (N.to_nat lb))
   | _ => Crash
   end.
 
@@ -1075,7 +1161,7 @@ Definition lower_program (dedup : bool) (P : program) : res lowered :=
       let* E0 := fold_left (fun Er b => let* E := Er in env_let E (fst b) (snd b))
                            bindings (Ok (env_push glob)) in
       let s0 := mkCst (new_builder dedup input_gates) pstate_new in
-      let* ((outs, _), s1) := lower_block lower_fuel P (fn_body fd) E0 s0 in
+      let* ((outs, _), s1) := lower_block bops lower_fuel P (fn_body fd) E0 s0 in
       let* c := build (cb s1) (prec_wires (ps_rec (cp s1))) outs in
       Ok (LCircuit c)
   end.
